@@ -99,10 +99,12 @@ structure Fix where
   guardSmall : Bool
   /-- F9b: consensus-state expiry no longer deletes the recent-signer record of that height -/
   keepSigner : Bool
+  /-- F14: a header must carry the revision number of the head (`verifyCascadingFields`) -/
+  sameRevision : Bool
   deriving DecidableEq, Repr
 
-def Fix.fixed : Fix := ⟨true, true⟩
-def Fix.asFound : Fix := ⟨false, false⟩
+def Fix.fixed : Fix := ⟨true, true, true⟩
+def Fix.asFound : Fix := ⟨false, false, false⟩
 
 /-! ### uint64 / int64 arithmetic -/
 
@@ -192,6 +194,7 @@ def verifyCascadingFields (fx : Fix) (env : Env) (cs : ClientState) (st : Store)
   if parent.number % two64 ≠ subU64 h.number 1 then .err "unknown-ancestor"
   else if toBscPanics parent then .panic "parent.Hash"
   else if env.hash parent ≠ toHash h.parentHash then .err "unknown-ancestor"
+  else if fx.sameRevision && decide (h.rev ≠ parent.rev) then .err "revision"
   else if h.gasLimit > gasCap then .err "gas-limit-cap"
   else if h.gasUsed > h.gasLimit then .err "gas-used"
   else if gasDiff parent.gasLimit h.gasLimit ≥ parent.gasLimit % two64 / gasLimitBoundDivisor
